@@ -141,11 +141,13 @@ public:
 
 	bool emptyQueue() const
 	{
+		EVENTPP_VERIF_POINT("q.empty");
 		return queueList.empty() && (queueEmptyCounter.load(std::memory_order_acquire) == 0);
 	}
 
 	void clearEvents()
 	{
+		EVENTPP_VERIF_POINT("q.empty");
 		if(! queueList.empty()) {
 			BufferedItemList tempList;
 
@@ -167,6 +169,7 @@ public:
 
 	bool process()
 	{
+		EVENTPP_VERIF_POINT("q.empty");
 		if(! queueList.empty()) {
 			BufferedItemList tempList;
 
@@ -197,6 +200,7 @@ public:
 
 	bool processOne()
 	{
+		EVENTPP_VERIF_POINT("q.empty");
 		if(! queueList.empty()) {
 			BufferedItemList tempList;
 
